@@ -2,4 +2,5 @@ import Driver.Points
 import Driver.Misc
 import Driver.Server
 import Driver.Life
+import Driver.Net
 import Driver.Main
